@@ -88,6 +88,7 @@ typedef struct group {
 static group_t * g_groups;
 static _Atomic long g_probes[N_KINDS], g_migr[N_KINDS], g_stackbytes;
 static _Atomic long g_children, g_spurious_signals;
+static int g_oddstack;
 
 typedef struct { group_t * g; int me; int step; hk_rng_t * r; } swarg_t;
 
@@ -273,8 +274,12 @@ static void * group_main(void * a_) {
     myth_thread_attr_t at;
     myth_thread_attr_init(&at);
     if (i & 1) at.child_first = 0;          /* first entered through myth_entry_point (parent-first) */
-    myth_thread_attr_setstacksize(&at, 256 * 1024);
-    myth_create_ex(&ids[i], &at, probe_entry_stub, &pa[i]);
+    /* stack sizes that are not multiples of 16 (the library takes them verbatim): the entry stub and the
+       alignment hooks see whether the initial stack pointer is still aligned as the ABI requires */
+    static const size_t odd[] = { 0, 0, 8, 24, 4, 1 };
+    myth_thread_attr_setstacksize(&at, 256 * 1024 + (g_oddstack ? odd[(g->seed + (uint64_t)i) % 6] : 0));
+    if ((i & 3) == 2) ids[i] = myth_create(probe_entry_stub, &pa[i]);   /* NULL attribute: default size (MYTH_DEF_STKSIZE), child-first */
+    else myth_create_ex(&ids[i], &at, probe_entry_stub, &pa[i]);
   }
   for (i = 0; i < g->G; i++) myth_join(ids[i], 0);
   free(pa); free(ids);
@@ -283,6 +288,7 @@ static void * group_main(void * a_) {
 
 int main(int argc, char ** argv) {
   hk_init(argc, argv);
+  g_oddstack = (int)hk_arg("oddstack", 0);
   uint64_t seed = hk_seed();
   int ngroups = (int)hk_arg("groups", 8);
   int gsize = (int)hk_arg("gsize", 16);
